@@ -7,9 +7,13 @@ import MlModel.Model.PipeLib
   operator without batch sizes yields the 6 survivors.  The model reproduces it because
   `rebatched_args` is a *generator* (`Impl.rebatchGen` ends at the first error that passes through it)
   wrapped by `iter_ignore_error` (`Impl.pwi` with `skip`).
-* **F-C12-passed-on** — a skippable error that reaches `Assign` from upstream (here: the data
-  source) makes `processed_with_inputs` pop an input that was never buffered:
-  `IndexError('No element left')`; an `apply` in the same place skips the element.
+* (F-C12-passed-on — a skippable error that reaches `Assign` / `FilterFn` / `Sink` from upstream made
+  `processed_with_inputs` pop an input that was never buffered, `IndexError('No element left')` — is
+  **repaired** (`fix:` b939c97: the input iterator is wrapped in `iter_ignore_error` before it is teed;
+  `Impl.passedOnFixed`, `Impl.annotSkip`).  The model is the repaired code; the theorems are
+  `C12_skip_any_partial`, `C12_passed_on_uniform`, `C12_skip_source_partial` in `Properties/C12.lean`;
+  `C12_passed_on_repaired` below evaluates the former witness instance on the repaired model, and the
+  corpus case stays as a regression test.)
 * **F-C12-fnbatch-lost** — `apply(..., fn_batch_size=2, batch_size=2)` with error skipping over five
   records of which the third does not carry a column (`v = 5`): `_batch_size(5)` raises `TypeError`
   *inside* the first `rebatched_args` generator, `map_ignore_error` swallows it, the finalised
@@ -47,19 +51,16 @@ def assignNeg : Op :=
 def applyNeg : Op :=
   { kind := .apply, inKeys := [.name "a"], outKeys := [.key (.name "h")], fn := NamedFn.neg.toUFn }
 
-/-- F-C12-passed-on: the source's second element raises a skippable `ValueError`, skipping is on.
-Behind `assign` the run ends with `IndexError` after one record; behind `apply` the element is
-skipped and two records arrive; the reference passes the error on (the run is not `Clean`). -/
-theorem C12_passed_on_witness :
-    (Impl.run true [assignNeg] rec3).out.length = 1 ∧
-    (Impl.run true [assignNeg] rec3).err.map (·.kind) = some .index ∧
+/-- (test) the instance that witnessed F-C12-passed-on, on the model of the REPAIRED code: the source's
+second element raises a skippable `ValueError`, skipping is on.  Behind `assign` the element is
+skipped and two records arrive, no error — exactly as behind `apply` (the unrepaired code ended with
+`IndexError` after one record). -/
+theorem C12_passed_on_repaired :
+    (Impl.run true [assignNeg] rec3).out.length = 2 ∧
+    (Impl.run true [assignNeg] rec3).err = none ∧
     (Impl.run true [applyNeg] rec3).out.length = 2 ∧
-    (Impl.run true [applyNeg] rec3).err.isNone = true ∧
-    ¬ Ref.Clean true rec3 := by
-  refine ⟨by decide +kernel, by decide +kernel, by decide +kernel, by decide +kernel, ?_⟩
-  intro h
-  have := h { kind := .value } (by simp [rec3])
-  simp [terminal, Err.ignorable] at this
+    (Impl.run true [applyNeg] rec3).err = none := by
+  decide +kernel
 
 /-- the integers of the one column of a record `{key: [..]}` -/
 def oInts : Val → List Int
